@@ -132,6 +132,9 @@ array_t* get_dir (char *path, int flags) {
   if (path == 0)
     return 0;
 
+  if (strlen (path) > MAX_PATH_LEN)
+    return 0;			/* temppath holds MAX_PATH_LEN + '/' + MAX_FNAME_SIZE */
+
   if (strlen (path) < 2)
     {
       temppath[0] = path[0] ? path[0] : '.';
